@@ -563,6 +563,10 @@ def check_constant_liar(ctx, case):
   L = lib()
   from libsigopt.compute import vectorized_optimizers as vo
   afo = L["afo"]
+  if not (hasattr(afo, "constant_liar_acquisition_function_optimization") and hasattr(afo, "find_optimizer_maxiter")
+          and hasattr(vo, "VectorizedOptimizer")):
+    ctx.count("constant-liar: entry points not found by name - skipped")
+    return False
   numpy.random.seed(case["seed"])
   dom, cd, domj = build_domain(case)
   dim = len(case["bounds"])
